@@ -190,3 +190,13 @@ Fixpoint occ2_dyn_okb (Lo1 : list rank) (r r2 rx : rank) (k2 : nat) (Lo2 : list 
   | x :: Lo1' => negb (String.eqb x r) && negb (String.eqb x rx) && existsb (heads x) sh
                  && occ2_dyn_okb Lo1' r r2 rx k2 Lo2 r1 r0 k1 Li (step_rems x sh)
   end.
+
+(* ---------- summing over the upper coordinate ---------- *)
+(* the contributions whose key agrees with p on every rank except r1, summed (what an output that does not hold r1 receives) *)
+Definition matches_except (r1 : rank) (p : point) (q : list (rank * coord)) : bool :=
+  forallb (fun rc => String.eqb (fst rc) r1 || Z.eqb (p (fst rc)) (snd rc)) q.
+Fixpoint sum_except (r1 : rank) (p : point) (cs : list contrib) : Z :=
+  match cs with
+  | [] => 0
+  | qv :: cs' => if matches_except r1 p (fst qv) then snd qv + sum_except r1 p cs' else sum_except r1 p cs'
+  end.
